@@ -22,6 +22,8 @@
                 (IEEE 1363 KDF2), and the counter is appended to the input as four big-endian octets
   ERR-SIGN      the result of a routine that reports errors as negative values is not stored in an unsigned variable (where
                 `<= 0` no longer sees them: rejected padding is returned as an enormous length)
+  FINAL-PAD     the last BLAKE2s block is zero-filled from the buffered length to the block size before it is compressed
+                (the buffer still holds the previous block beyond the buffered octets)
   HMAC-KEY      a key longer than the block size is replaced by its digest before the pads are built, and the threshold,
                 the zero fill and the pad loop use one block size
 """
@@ -761,6 +763,40 @@ def _hash_block_size(prog):
     return {"SH224": 64, "SH256": 64, "B2S160": 64, "B2S256": 64, "SH384": 128, "SH512": 128}.get(m.group(1))
 
 
+# ---------------------------------------------------------------------- FINAL-PAD
+def rule_final_pad(ctx, prog, chk):
+    n = 0
+    for fn in prog.all:
+        if not in_scope(fn) or not re.search(r"blake2s_final$", fn.name):
+            continue
+        g = ctx.xcfg(prog, fn)
+
+        def gen(node, s, pre, fn=fn):
+            out = []
+            for cl in ir.calls_in(fn, node.el.e):
+                if cl[1] == "memset" and len(cl[2]) == 3 and _const(fn, cl[2][1]) == 0:
+                    names = set(x[2] for x in ir.walk(fn, cl[2][0], follow_refs=True) if x[0] == "m")
+                    lens = set(x[2] for x in ir.walk(fn, cl[2][2], follow_refs=True) if x[0] == "m")
+                    if "buf" in names and "buflen" in names and "buflen" in lens:
+                        out.append(("ev", "padded"))
+            return out
+        F = Facts(prog, g, gen=gen)
+        for nd in g.nodes:
+            if nd.kind != "el":
+                continue
+            for cl in ir.calls_in(fn, nd.el.e):
+                if cl[1] and re.search(r"blake2s_compress$", cl[1]):
+                    st = F.at(nd)
+                    if st is None or st is engines.UNIVERSE:
+                        continue
+                    n += 1
+                    if ("ev", "padded") in st:
+                        chk.ok("FINAL-PAD", fn, "buf", "the tail of the buffer is zero-filled on every path to the last compression", line=nd.el.line)
+                    else:
+                        chk.fail("FINAL-PAD", fn, "buf", "the last block is compressed on a path on which the buffer was not zero-filled from the buffered length to the block size: for messages longer than one block that do not end on a block boundary the tail still holds octets of the previous block", line=nd.el.line)
+    return n
+
+
 # ---------------------------------------------------------------------- ERR-SIGN
 def _returns_negative(g):
     for el in g.all_elements():
@@ -945,6 +981,7 @@ def analyse(ctx, prog, chk, selftest=False):
     c["shift"] = rule_shift_dead(ctx, prog, chk)
     c["kdf"] = rule_kdf_counter(ctx, prog, chk)
     c["errsign"] = rule_err_sign(ctx, prog, chk)
+    c["fpad"] = rule_final_pad(ctx, prog, chk)
     return c
 
 
@@ -961,6 +998,7 @@ def run(ctx, chk):
     chk.floor("PKCS7-REJECT", "unpadding release points and wrappers", c["pkcs7"], 2)
     chk.floor("HMAC-KEY", "HMAC key preparations", c["hmac"], 1)
     chk.floor("KDF-COUNTER", "counter starts and counter encodings", c["kdf"], 2)
+    chk.floor("FINAL-PAD", "final compressions of BLAKE2s", c["fpad"], 1)
     chk.floor("ERR-SIGN", "results of routines that return negative error codes", c["errsign"], 2)
     chk.floor("SHIFT-DEAD", "right shifts by a constant", c["shift"], 100)
     if chk.tier == "thorough":
